@@ -352,6 +352,13 @@ def _field_validator(B, vid, tag):
             raise KeyError("rejected by the harness validator (lookup failed)")
         if vid == "tag":
             return model.tag_transform(value)
+        if vid.startswith(("ge:", "le:")):
+            try:
+                sib = getattr(cfg, vid[3:])
+            except Exception:  # noqa: BLE001 - the sibling is not there yet (configuration under construction)
+                sib = None
+            if isinstance(sib, int) and not isinstance(sib, bool) and (value < sib if vid.startswith("ge:") else value > sib):
+                raise ValueError("must not be %s %s (%r)" % ("below" if vid.startswith("ge:") else "above", vid[3:], sib))
         return value
     check.__name__ = "validator_%s" % vid
     return check
